@@ -45,15 +45,15 @@ def with_origin_kind(topo, node, kind, name):
     return t
 
 
-def pair_numpy(tA, tB, style, D):
+def pair_numpy(tA, tB, style, D, flags=None):
     """one exploration stepping both networks: list of (pc, outsA, outsB, exc)."""
     res = []
 
     def fn():
         PA, PB = runs.sym_params(tA), runs.sym_params(tB)
         XA, XB = runs.sym_inputs(tA, style), runs.sym_inputs(tB, style)
-        _, nA = runs.step_numpy(tA, PA, XA)
-        _, nB = runs.step_numpy(tB, PB, XB)
+        _, nA = runs.step_numpy(tA, PA, XA, flags)
+        _, nB = runs.step_numpy(tB, PB, XB, flags)
         return nA, nB
 
     for pr in explore(fn, domain=D):
@@ -65,10 +65,10 @@ def pair_numpy(tA, tB, style, D):
     return res
 
 
-def pair_casadi(tA, tB, symtype):
+def pair_casadi(tA, tB, symtype, flags=None):
     numeric = netcheck.casadi_numeric_for(tA)
-    eA = netcheck.casadi_encoding(tA, symtype, numeric)
-    eB = netcheck.casadi_encoding(tB, symtype, numeric)
+    eA = netcheck.casadi_encoding(tA, symtype, numeric, flags)
+    eB = netcheck.casadi_encoding(tB, symtype, numeric, flags)
     exc = eA.exc or eB.exc
     return [([], eA.outs, eB.outs, exc)], numeric
 
@@ -90,9 +90,11 @@ def net_pairs(topo):
                 hyp.append((1 + R(f"alpha_{l.name}")) * R(f"vctrl_{l.name}[{j}]") >= Veq_term(l, i))
         out.append(("vsl-inactive == plain", topo, plain, hyp, "eq"))
         out.append(("vsl <= plain", topo, plain, [], "vsl_le"))
+        nolim = with_links(topo, lambda l: T_.LinkSpec(l.name, l.u, l.v, l.N, () if l.is_vsl else None), topo.name + "~nolimit")
         if any(l.vsl for l in vls):
-            nolim = with_links(topo, lambda l: T_.LinkSpec(l.name, l.u, l.v, l.N, () if l.is_vsl else None), topo.name + "~nolimit")
             out.append(("vsl-without-limited-segment == plain", nolim, plain, [], "eq"))
+        # the same under positivity options and for ALL reals (negative states included): the clamps must act on both alike
+        out.append(("vsl-without-limited-segment == plain [options on, all reals]", nolim, plain, [], "eq", 0b111111))
     for node, (o, k) in topo.origins.items():
         if k in ("ramp_in", "ramp_out"):
             other = with_origin_kind(topo, node, "ramp_out" if k == "ramp_in" else "ramp_in", topo.name + "~" + o + "swap")
@@ -118,14 +120,20 @@ def work_net(item):
     acc = netcheck.Acc(topo.name)
     acc.d["extra"]["inf_companion_runs"] = 0
     prover = discharge.Prover(timeout_ms=timeout_ms, seed=seed)
-    for label, tA, tB, hyp, rel in net_pairs(topo):
+    for pair in net_pairs(topo):
+        label, tA, tB, hyp, rel = pair[:5]
+        bits = pair[5] if len(pair) > 5 else 0
+        flags = runs.flags_of(bits)
         D = ref_metanet.admissible_domain(tA)
+        if bits:
+            pn = set(T_.param_names(tA))
+            D = [c for c in D if set(discharge.free_vars(c)) <= pn]  # parameters only: states range over all reals
         encs = []
         try:
-            for pc, oA, oB, exc in pair_numpy(tA, tB, style, D + hyp):
+            for pc, oA, oB, exc in pair_numpy(tA, tB, style, D + hyp, flags):
                 encs.append((f"numpy[{style}]", pc, oA, oB, exc, None))
             for st in ("SX", "MX"):
-                lst, numeric = pair_casadi(tA, tB, st)
+                lst, numeric = pair_casadi(tA, tB, st, flags)
                 for pc, oA, oB, exc in lst:
                     encs.append((f"casadi[{st}]", pc, oA, oB, exc, numeric))
         except (symx.UnsupportedOp, symx.Inconclusive) as e:
@@ -159,7 +167,7 @@ def work_net(item):
                     def on_sat(model, key=key, i=i, eng=eng, label=label, tA=tA, tB=tB, rel=rel, numeric=numeric, goal_is_le=(z3.is_le(goal))):
                         env = netcheck.model_env(tA, model, rng, numeric)
                         env.update({k: v for k, v in netcheck.model_env(tB, model, rng, numeric).items() if k not in env})
-                        return replay_net(tA, tB, style, eng, env, key, i, rel, label, goal_is_le, numeric)
+                        return replay_net(tA, tB, style, eng, env, key, i, rel, label, goal_is_le, numeric, flags)
 
                     acc.query(prover, tA, eng, f"{label}: {key[1]}_{key[0]}[{i}]", goal, Dn, list(pc), on_sat, extra=hn)
         # float companion with an actual infinity (plain execution)
@@ -188,14 +196,23 @@ def work_net(item):
     return acc.done(prover)
 
 
-def replay_net(tA, tB, style, eng, env, key, i, rel, label, is_le, numeric, verbose=False):
-    from checks import c02
+def real_next_flags(topo, encname, style, env, numeric, flags):
+    if encname.startswith("numpy"):
+        return numrun.numpy_float(topo, env, style, flags)
+    try:
+        F, built, P, declared = runs.cas_function(topo, "SX" if "SX" in encname else "MX", numeric, 0, False, flags)
+        res = dict(numrun.casadi_float(F, numrun.casadi_args(F, topo, declared, env)))
+    except Exception as e:  # noqa
+        return None, e
+    return {(nm[:-1].partition("_")[2], nm[:-1].partition("_")[0]): vals for nm, vals in res.items()}, None
 
+
+def replay_net(tA, tB, style, eng, env, key, i, rel, label, is_le, numeric, flags=None, verbose=False):
     envb = dict(env)
     if isinstance(rel, (tuple, list)):
         envb[rel[1]] = env[rel[2]]
-    ra, ea = c02.real_next(tA, eng, style, env, numeric)
-    rb, eb = c02.real_next(tB, eng, style, envb, numeric)
+    ra, ea = real_next_flags(tA, eng, style, env, numeric, flags)
+    rb, eb = real_next_flags(tB, eng, style, envb, numeric, flags)
     if ea is not None or eb is not None:
         return None
     x, y = ra[tuple(key)][i], rb[tuple(key)][i]
@@ -207,7 +224,7 @@ def replay_net(tA, tB, style, eng, env, key, i, rel, label, is_le, numeric, verb
     return {"key": f"net:{tA.name}:{label}:{eng}:{key[1]}_{key[0]}[{i}]", "group": f"net:{tA.name}:{label}",
             "what": f"{tA.describe()} | '{label}' ({eng}): next {key[1]}_{key[0]}[{i}] = {x!r} vs {y!r}",
             "replay": {"property": PID, "kind": "net", "topoA": tA.to_json(), "topoB": tB.to_json(), "style": style, "engine": eng, "env": env,
-                       "target": [list(key), i], "rel": rel, "label": label, "is_le": is_le, "numeric": numeric}}
+                       "target": [list(key), i], "rel": rel, "label": label, "is_le": is_le, "numeric": numeric, "flags": flags}}
 
 
 # ------------------------------------------------------------------------------- primitive level
@@ -289,7 +306,7 @@ def replay(rec):
     if rec["kind"] == "net":
         tA, tB = T_.Topo.from_json(rec["topoA"]), T_.Topo.from_json(rec["topoB"])
         key, i = rec["target"]
-        v = replay_net(tA, tB, rec["style"], rec["engine"], rec["env"], key, i, rec["rel"], rec["label"], rec["is_le"], rec.get("numeric"), True)
+        v = replay_net(tA, tB, rec["style"], rec["engine"], rec["env"], key, i, rec["rel"], rec["label"], rec["is_le"], rec.get("numeric"), rec.get("flags"), True)
         return 1 if v else 0
     if rec["kind"] == "inf":
         tA, tB = T_.Topo.from_json(rec["topoA"]), T_.Topo.from_json(rec["topoB"])
